@@ -381,6 +381,10 @@ def r9_weight_homogeneous(idx, r):
         raise AnalysisError("getWeight: the assignment reading the weighting parameter was not found")
     e = ws[0].value
     P = next(norm(x) for x in ast.walk(e) if isinstance(x, ast.Subscript) and "weightingParam" in norm(x))
+    # canonical form (canon C11): `if not self.weightingParam: w = 1.0 else: w = <expr in p>` is one conditional expression; the branch taken
+    # when a weighting parameter is configured is the one that reads it
+    while isinstance(e, ast.IfExp) and P not in norm(e.test):
+        e = e.body if P in norm(e.body) else e.orelse
 
     def val(x, p):
         if isinstance(x, ast.Subscript) and norm(x) == P:
